@@ -7,6 +7,11 @@ Property theorems only. Model: `NitroVerif/Model/Loader.lean` (tied to
 `crates/graphql-loader/src/{main,tasks,loader}.rs` by the correspondence check `harness/src/bin/c19.rs`,
 which drives the real `extern "C"` functions call by call).
 All theorems quantify over every parser / path resolver / emitter (`env`) and every history.
+
+CONCRETE EMITTER (second stage, `Props/C19Composed.lean`): `env.emit` instantiated with import resolution (C13's model)
++ `find_undefined_fragment_spread` (fix 08fd7e5) + the JavaScript-module model (C14's statements, C12's document
+literals).  `C19_emit_total` proves `EmitTotal` for it, so `C19_isolation_concrete` / `C19_no_trap_concrete` have no
+hypothesis left; `C19_emit_is_printer` says what `emit_js` answers.  The parser stays a parameter there.
 -/
 namespace NitroVerif.Loader
 variable {P S J : Type} [DecidableEq P]
